@@ -118,6 +118,18 @@ func H_c06(p []int) {
 	if len(p) > 4 && p[4] > 0 {
 		c12History(p[4]-1, "h")
 	}
+	hookOn := len(p) > 5 && p[5] == 1
+	if hookOn {
+		// an error hook that marks part of its output unsafe (as error
+		// libraries do): under Safe() none of it is enveloped, under Unsafe()
+		// the hook is not used at all
+		redact.RegisterRedactErrorFn(func(err error, w redact.SafePrinter, verb rune) {
+			w.SafeString("H[")
+			w.UnsafeString("u")
+			w.Print(redact.Safe("s"), "x")
+			w.SafeString("]")
+		})
+	}
 	// a second, unsafe operand follows: the wrapper's override must end with its operand
 	r := catchRedact(func() redact.RedactableString { return redact.Sprintf("a‹ "+d+" b %v", v, "T") })
 	if r.panicked {
@@ -128,6 +140,14 @@ func H_c06(p []int) {
 	wf, _ := wfls(out)
 	vAssert(wf, "C06/wf")
 	if !wf {
+		return
+	}
+	if hookOn && !outerUnsafe {
+		tail := []byte(" b ‹T›")
+		vAssert(hasSuffixBytes(out, tail), "C06/next-operand-still-unsafe")
+		if hasSuffixBytes(out, tail) {
+			vAssert(!hasMarker(out[:len(out)-len(tail)]), "C06/safe-envelopes-none-hook")
+		}
 		return
 	}
 	de := delEnv(out)
